@@ -1,0 +1,31 @@
+// SPDX-License-Identifier: Apache-2.0
+// Copyright Authors of Cilium
+
+//go:build verif
+
+package statedb
+
+import "sync/atomic"
+
+type verifHookFunc func(point string, db *DB)
+
+var verifHookFn atomic.Pointer[verifHookFunc]
+
+// verifHook forwards to the callback installed by the verification harness.
+func verifHook(point string, db *DB) {
+	if f := verifHookFn.Load(); f != nil {
+		(*f)(point, db)
+	}
+}
+
+// VerifSetHook installs (or with nil removes) the callback invoked at the
+// named points inside WriteTxn, Commit, Abort, registerTable and the
+// graveyard worker.
+func VerifSetHook(f func(point string, db *DB)) {
+	if f == nil {
+		verifHookFn.Store(nil)
+		return
+	}
+	fn := verifHookFunc(f)
+	verifHookFn.Store(&fn)
+}
